@@ -26,6 +26,7 @@ contract(f"{B_}:CoaxialPipe.concentric_tube_volumes",
                   ("pipe-wall-volume-is-both-walls", lambda E: E.result[1] == PI * (E.self.r_inner[1] * E.self.r_inner[1] - E.self.r_inner[0] * E.self.r_inner[0]
                                                                                    + E.self.r_outer[1] * E.self.r_outer[1] - E.self.r_outer[0] * E.self.r_outer[0])),
                   ("volumes-positive", lambda E: And(E.result[0] > 0, E.result[1] > 0)),
+                  ("convective-resistance-of-the-annulus-wall", lambda E: And(E.result[2] > 0, E.result[2] * (E.self.h_f_a_in * (PI * 2 * E.self.r_outer[0])) == 1)),
                   ("outer-wall-resistance", lambda E: E.result[3] == LOG(E.self.r_outer[1] / E.self.r_outer[0]) / ((2 * PI) * E.self.pipe.k[1]))],
          returns=TupleOf(Real, Real, Real, Real))
 
@@ -296,3 +297,40 @@ def _to_single_residuals(E):
 
 
 EQUIV_FUNCS = [f"{B_}:GHEDesignerBoreholeWithMultiplePipes.equivalent_single_u_tube", f"{B_}:GHEDesignerBoreholeWithMultiplePipes.match_effective_borehole_resistance", f"{B_}:MultipleUTube.to_single"]
+
+# the composition for a coaxial exchanger
+contract(f"{B_}:CoaxialPipe.calc_effective_borehole_resistance", dict(self=ObjOf(f"{B_}:CoaxialPipe", g_id=Int)), name=f"{B_}:CoaxialPipe.calc_effective_borehole_resistance#orig",
+         ensures=[("function-of-the-original-exchanger", lambda E: E.result == RB_ORIG(E.self.g_id))], returns=Real,
+         notes="ASSUMED: the original exchanger's effective resistance is a function of its (unchanged) state").applies = lambda env: "g_id" in env["self"].fields
+
+
+def _coax_residuals(E):
+    rii, rio = E.self.r_inner[0], E.self.r_inner[1]
+    roi, roo = E.self.r_outer[0], E.self.r_outer[1]
+    vf = PI * (rii * rii + roi * roi - rio * rio)
+    vp = PI * (rio * rio - rii * rii + roo * roo - roi * roi)
+    ri, ro = SQRT(vf / (2 * PI)), SQRT((vf + vp) / (2 * PI))
+    rpipe = LOG(roo / roi) / ((2 * PI) * E.self.pipe.k[1])
+    kp = LOG(ro / ri) / ((2 * PI) * 2 * rpipe)
+    tid, rfp0 = TUBEID(ri, ro), RFPF(ri, ro, kp)
+    return And(ForAll([z3.Real("rc!")], Implies(z3.Real("rc!") > 0, And(RFPF(ri, ro, kp / 100) - (z3.Real("rc!") + rpipe) != 0, RFPF(ri, ro, kp * 10) - (z3.Real("rc!") + rpipe) != 0))),
+               RB_ORIG(E.self.g_id) - RBEFF(tid, E.self.grout.k, rfp0) != 0,
+               ForAll([z3.Real("rfp!")], And(RB_ORIG(E.self.g_id) - RBEFF(tid, RealVal("1/100"), z3.Real("rfp!")) != 0, RB_ORIG(E.self.g_id) - RBEFF(tid, RealVal(7), z3.Real("rfp!")) != 0)))
+
+
+contract(f"{B_}:CoaxialPipe.to_single",
+         dict(self=ObjOf(f"{B_}:CoaxialPipe", g_id=Int, r_inner=FixedList([Real, Real]), r_outer=FixedList([Real, Real]), h_f_a_in=Real, m_flow_borehole=Real,
+                         b=ObjOf("ghedesigner.borehole:GHEBorehole", r_b=Real, H=Real, D=Real),
+                         pipe=ObjOf("ghedesigner.media:Pipe", roughness=Real, rhoCp=Real, k=FixedList([Real, Real])), grout=ObjOf("ghedesigner.media:Grout", k=Real, rhoCp=Real),
+                         fluid=ObjOf("fluid", cp=Real), soil=ObjOf("soil", k=Real))),
+         requires=[("nested-radii", lambda E: And(0 < E.self.r_inner[0], E.self.r_inner[0] < E.self.r_inner[1], E.self.r_inner[1] < E.self.r_outer[0], E.self.r_outer[0] < E.self.r_outer[1],
+                                                  E.self.h_f_a_in > 0, E.self.pipe.k[1] > 0, E.self.b.r_b > 0)),
+                   ("A-LOG instance: ln(r_oo/r_oi) > 0", lambda E: LOG(E.self.r_outer[1] / E.self.r_outer[0]) > 0),
+                   ("residuals-nonzero-at-the-bracket-ends (solve_root's precondition, both solves)", _coax_residuals)],
+         ensures=[("fluid-volume-per-metre-preserved", lambda E: 2 * PI * E.result.pipe.r_in * E.result.pipe.r_in
+                   == PI * (E.self.r_inner[0] * E.self.r_inner[0] + E.self.r_outer[0] * E.self.r_outer[0] - E.self.r_inner[1] * E.self.r_inner[1])),
+                  ("pipe-wall-volume-per-metre-preserved", lambda E: 2 * PI * (E.result.pipe.r_out * E.result.pipe.r_out - E.result.pipe.r_in * E.result.pipe.r_in)
+                   == PI * (E.self.r_inner[1] * E.self.r_inner[1] - E.self.r_inner[0] * E.self.r_inner[0] + E.self.r_outer[1] * E.self.r_outer[1] - E.self.r_outer[0] * E.self.r_outer[0])),
+                  ("equivalent-tube-coherent", lambda E: coherent(E.result))],
+         returns=EqTube(), options={"timeout_ms": 60000})
+EQUIV_FUNCS.append(f"{B_}:CoaxialPipe.to_single")
